@@ -2,6 +2,7 @@
   C03 — Mass sheet, external convergence and PPN are multiplicative distance rescalings.
 -/
 import HierArc.Proofs.Lens
+import HierArc.Proofs.LensSlope
 import HierArc.Gen.Tables
 
 namespace HierArc.C03
@@ -158,6 +159,50 @@ theorem lens_eq_data {cfg : LensCfg ℝ} {hy : Hyper ℝ} {ddt dd dLum : ℝ} {b
   simp only [displace_formula _ _ _ _ _ _ hfloor] at hvals
   rw [hvals]
   simp [List.lookup, hprior]
+
+/-- **"… with the same lambda and slope"** (every evaluation, sharp or not): the slope handed to the data likelihood
+    (the double-source-plane likelihood is the one that uses it) is the slope the configuration determines — the lens' own
+    entry of the slope list, a draw around the global mean (Gaussian form), the global mean itself (delta-function form),
+    or the isothermal 2 when the lens has no slope model. -/
+theorem lens_slope {cfg : LensCfg ℝ} {hy : Hyper ℝ} {ddt dd dLum : ℝ} {beta : Option ℝ}
+    {ext : Ext ℝ} {fuel : ℕ} {s s' : St ℝ} {out : SingleOut ℝ}
+    (h : singlePre mkR cfg hy ddt dd dLum beta ext fuel s = .ok (out, s')) :
+    ∃ g, out.vals.lookup "gamma_pl" = some (.num g) ∧ SlopeOK mkR cfg.dist hy.lens hy.gammaPlList g := by
+  obtain ⟨lam, κ, x, gpl, _, _, _, _, _, ⟨ld, kd, sA, sA', sB, sB', hdl, _, _, hg, _⟩, hvals⟩ := singlePre_spec h
+  refine ⟨gpl, ?_, ?_⟩
+  · rw [hvals]; simp [List.lookup]
+  · rw [hg]; exact drawLens_slope fuel hdl
+
+/-- the global slope at sharp hyper-parameters — delta-function form (the default, whatever width is stored) or Gaussian
+    form of zero width: the lens is evaluated at `gamma_pl_mean`, not at the isothermal default -/
+theorem lens_slope_global_sharp {cfg : LensCfg ℝ} {hy : Hyper ℝ} {ddt dd dLum : ℝ} {beta : Option ℝ}
+    {ext : Ext ℝ} {fuel : ℕ} {s s' : St ℝ} {out : SingleOut ℝ}
+    (h : singlePre mkR cfg hy ddt dd dLum beta ext fuel s = .ok (out, s'))
+    (hidx : cfg.dist.gammaPlIndex = none) (hglob : cfg.dist.gammaPlGlobalSampling = true)
+    (hσ : cfg.dist.gammaPlGlobalGauss = true → getD hy.lens "gamma_pl_sigma" 0.0 = 0) :
+    out.vals.lookup "gamma_pl" = some (.num (getD hy.lens "gamma_pl_mean" 2.0)) := by
+  obtain ⟨g, hv, hok⟩ := lens_slope h
+  unfold SlopeOK at hok
+  simp only [hidx, hglob, if_true] at hok
+  cases hgg : cfg.dist.gammaPlGlobalGauss with
+  | false => simp only [hgg] at hok; rw [hv, hok]
+  | true =>
+    simp only [hgg, if_true] at hok
+    obtain ⟨x, hx⟩ := hok
+    rw [hσ hgg, mkR_zero] at hx
+    rw [hv, hx]
+
+/-- a lens with its own slope: the entry of the slope list at the index the sample handed out -/
+theorem lens_slope_own {cfg : LensCfg ℝ} {hy : Hyper ℝ} {ddt dd dLum : ℝ} {beta : Option ℝ}
+    {ext : Ext ℝ} {fuel : ℕ} {s s' : St ℝ} {out : SingleOut ℝ} {i : ℕ}
+    (h : singlePre mkR cfg hy ddt dd dLum beta ext fuel s = .ok (out, s'))
+    (hidx : cfg.dist.gammaPlIndex = some i) :
+    ∃ l g, hy.gammaPlList = some l ∧ l[i]? = some g ∧ out.vals.lookup "gamma_pl" = some (.num g) := by
+  obtain ⟨g, hv, hok⟩ := lens_slope h
+  unfold SlopeOK at hok
+  simp only [hidx] at hok
+  obtain ⟨l, hl, hg⟩ := hok
+  exact ⟨l, g, hl, hg, hv⟩
 
 /-- the lens' lambda: IFU-specific population value when the lens is so flagged -/
 theorem ifu_routing (cfg : LensDist ℝ) (kw : Dict ℝ) :
